@@ -88,6 +88,11 @@ fn lp_run<T: RealNumber>(case: &LpCase, ctx: &mut Ctx) -> Result<(), Fail> {
         ("manhattan", Box::new(|a, b| man.distance(a, b)), 1.0),
         ("minkowski", Box::new(|a, b| mink.distance(a, b)), p),
     ];
+    // a cloned metric is the same metric (Minkowski carries its order)
+    {
+        let (c1, c2): (T, T) = (mink.clone().distance(&tx, &ty), mink.distance(&tx, &ty));
+        ensure!(ft(c1).to_bits() == ft(c2).to_bits(), "minkowski/clone-differs", "clone().distance = {:e}, original {:e}", ft(c1), ft(c2));
+    }
     let mut vals = vec![];
     for (name, f, pp) in &ds {
         let d = |a: &Vec<T>, b: &Vec<T>| -> Result<f64, Fail> { Ok(ft(no_panic(name, || f(a, b))?)) };
@@ -267,6 +272,10 @@ fn maha_run<T: RealNumber>(case: &MahaCase, ctx: &mut Ctx) -> Result<(), Fail> {
     ensure!((dxy == 0.0) == (x == y), "mahalanobis/zero-iff-equal", "d(x,y) = {:e} for x {} y (x = {:?}, y = {:?})", dxy, if x == y { "==" } else { "!=" }, x, y);
     let exy = refd(&x, &y);
     ctx.bound("mahalanobis/closed-form", (dxy - exy).abs(), rel * exy)?;
+    // a cloned metric is the same metric (estimators clone the distance they are configured with)
+    let cloned = dist.clone();
+    let dc: f64 = ft(no_panic("mahalanobis/clone", || cloned.distance(&tx, &ty))?);
+    ensure!(dc.to_bits() == dxy.to_bits(), "mahalanobis/clone-differs", "clone().distance = {:e}, original {:e}", dc, dxy);
     ensure!(dxz <= dxy + dyz + rel * (dxy + dyz + dxz), "mahalanobis/triangle", "d(x,z) = {:e} > {:e} + {:e}", dxz, dxy, dyz);
     if case.identity {
         let e: f64 = ft(Distances::euclidian().distance(&tx, &ty));
